@@ -69,6 +69,9 @@ MUTANTS = [
     {"name": "revert-6a12ebb-lax-max_digits-carry", "revert": "6a12ebb", "props": ["C03"]},
     {"name": "revert-2b13b3c-lax-multiple_of-float-drift", "revert": "2b13b3c", "props": ["C03"]},
     {"name": "revert-2c2374b-safe-repr-of-items", "revert": "2c2374b", "props": ["C04"]},
+    {"name": "revert-41cd943-unhashable-discriminator", "revert": "41cd943", "props": ["C04"]},
+    {"name": "revert-271e688-recheck-after-decimal_places", "revert": "271e688", "props": ["C01"]},
+    {"name": "revert-35e1088-int-lax-fractional-step", "revert": "35e1088", "props": ["C01"]},
     # ---- C01 ------------------------------------------------------------------------------
     {"name": "c01-seq-first-element-unconverted", "props": ["C01"], "edits": [{"file": R, "old": """                try:
                     result.append(
